@@ -760,6 +760,8 @@ Section Suite.
         match rpmi with
         | [] => Panic
         | rp :: rpmi' =>
+          (* the range proof must be about the commitment of the opening proof (fix F15) *)
+          if negb (c_value (pv_com pv) =? bd_E rp) then Ok false else
           let* b2 := boudot_verify rp gi (ck_h ck) (ck_N ck) 0 max_x in
           if negb b2 then Ok false else spok_verify_loop ck u pmi' rpmi'
         end
@@ -812,6 +814,7 @@ Section Suite.
         match rpmi with
         | [] => Panic
         | rp :: rpmi' =>
+          if negb (c_value (pv_com pv) =? bd_E rp) then Ok false else
           let* b2 := boudot_verify rp ai (pk_b pk) (pk_N pk) 0 max_x in
           if negb b2 then Ok false else zkpok_verify_loop pk bases u pmi' rpmi'
         end
@@ -832,6 +835,7 @@ Section Suite.
     let* a0 := nthZ bases 0 in
     let* br := nisp2sec_verify (pv_value (zk_pr p)) (pv_com (zk_pr p)) a0 (pk_b pk) (pk_N pk) in
     if negb br then Ok false else
+    if negb (c_value (pv_com (zk_pr p)) =? bd_E (zk_rpr p)) then Ok false else
     boudot_verify (zk_rpr p) a0 (pk_b pk) (pk_N pk) 0 max_r.
 
   (* ---------------------------------------------------------------- blind.rs *)
